@@ -170,6 +170,24 @@ impl Condition {
                     }
                 }
 
+                // The evaluator reads the left operand as a variable. A comparison
+                // written with the constant on the left (`2 > ?v`) is the mirrored
+                // comparison with the variable on the left (`?v < 2`).
+                if !Self::is_variable(variable) && Self::is_variable(value) {
+                    let mirrored = match *operator {
+                        "<" => ">",
+                        "<=" => ">=",
+                        ">" => "<",
+                        ">=" => "<=",
+                        other => other,
+                    };
+                    return ConditionExpression::Comparison(
+                        (*value).to_string(),
+                        mirrored.to_string(),
+                        resolve_constant(variable),
+                    );
+                }
+
                 let value = if Self::is_variable(value) {
                     (*value).to_string()
                 } else {
